@@ -52,7 +52,7 @@ int c_var2h(int nvalvar, int nvalh,
 
     /* Set first time step to be immediately before hstart */
     varindex = 0;
-    while(varsec[varindex]<=hstartsec) varindex++;
+    while(varindex<nvalvar && varsec[varindex]<=hstartsec) varindex++;
     varindex--;
 
     /* hstart is smaller than first value in varsec */
@@ -80,7 +80,7 @@ int c_var2h(int nvalvar, int nvalh,
         }
 
         /* Start and end of integration */
-        start = (double)(hstartsec+i*nbsec_per_period);
+        start = (double)(hstartsec+(long long)i*nbsec_per_period);
         end = start+nbsec_per_period_d;
 
         /* Initialisation */
@@ -99,6 +99,14 @@ int c_var2h(int nvalvar, int nvalh,
         /* Calculate the hourly value */
         while(t1<end)
         {
+            /* No more data: the period is not covered */
+            if(varindex+1>=nvalvar)
+            {
+                miss = 1;
+                varindex++;
+                break;
+            }
+
             /* Get instantaneous time and values */
             t2 = (double) varsec[varindex+1];
             val2 = varvalues[varindex+1];
